@@ -119,23 +119,26 @@ Fixpoint digits_us (isd : N -> bool) (s : ustring) (prev_digit : bool) (acc : us
     else None
   end.
 
+(* an optional sign *)
+Definition split_sign (s1 : ustring) : bool * ustring :=
+  match s1 with
+  | 45 :: r => (true, r)
+  | 43 :: r => (false, r)
+  | _ => (false, s1)
+  end.
+
+(* an optional 0x / 0X prefix; after a prefix one underscore may precede the digits *)
+Definition strip_hex_prefix (s2 : ustring) : ustring :=
+  match s2 with
+  | 48 :: x :: r => if (x =? 120) || (x =? 88) then match r with 95 :: r' => r' | _ => r end else s2
+  | _ => s2
+  end.
+
 Definition py_int_of_text (base16 : bool) (s : ustring) : result Z :=
   if negb (all_ascii s) then Unmodelled else
   let s1 := strip_chars [32; 9; 10; 11; 12; 13; 28; 29; 30; 31] s in
-  let '(neg, s2) := match s1 with
-                    | 45 :: r => (true, r)
-                    | 43 :: r => (false, r)
-                    | _ => (false, s1)
-                    end in
-  let s3 := if base16 then
-              match s2 with
-              | 48 :: x :: r => if (x =? 120) || (x =? 88) then
-                                  (* after a prefix one underscore may precede the digits *)
-                                  match r with 95 :: r' => r' | _ => r end
-                                else s2
-              | _ => s2
-              end
-            else s2 in
+  let '(neg, s2) := split_sign s1 in
+  let s3 := if base16 then strip_hex_prefix s2 else s2 in
   match digits_us (if base16 then is_hexdigit else is_digit) s3 false [] with
   | Some ds => let v := digits_val (if base16 then 16 else 10)%Z ds 0%Z in Ok (if neg then (- v)%Z else v)
   | None => Err EValueError
